@@ -161,3 +161,12 @@ package ir
 //@ func (*Canonicalizer).CanonicalizeFunction$1
 //@   requires 0 <= i && i < len(*unreachables) && 0 <= j && j < len(*unreachables)
 //@   ensures result == ((*unreachables)[i].Index < (*unreachables)[j].Index)
+
+// ---- C02: the signature line is rendered from types only. sanitizeType prints names for a tuple (types.TypeString
+// on a *types.Tuple prints the variable names), so it is applied to the result types one by one, never to the tuple.
+//@ func (*Canonicalizer).writeFunctionSignature
+//@   noframe
+//@   protocol-only C02
+//@   uses gotypes
+//@   call sanitizeType assert [C02.types] !hasType(a0, "*types.Tuple")
+//@   call go/types.TypeString assert [C02.types] false
